@@ -118,7 +118,7 @@ def runOp (m : MState) (kind : String) (op : Op) (withOut : Bool := true) : MSta
   if !m.inited then err m "uninit" else
   match m.w.exec m.blk op with
   | .ok (w', o) =>
-    ({ m with w := w' }, { ok := some true, out := if withOut then renderOutcome o else [], tag := s!"{kind}.ok.{renderAck o.ack}" })
+    ({ m with w := w' }, { ok := some true, out := if withOut then renderOutcome o else [], tag := s!"{kind}.ok.{renderAck o.ack}{if o.sub.isSome then "+sub" else ""}" })
   | .error e => err m s!"{kind}.{e}"
 
 def initWorld (h : Args) : World :=
